@@ -160,7 +160,7 @@ PROPS = {
         "obligation_files": ["Properties/C13.v"],
         "model_files": ['Model/BundleM.v', 'Model/BundleOps.v', 'Corr/Transport.v', 'Proofs/CacheProofs.v', 'Corr/RunB.v'],
         "rule": "stream bundle-hist: headers assembled in random order from a pool of valid, attenuated, undischarged (one and two third parties), wrongly-keyed, unknown-key-id and foreign-location permission tokens, genuine / extraneous / wrongly-signed discharges, non-macaroon and malformed entries (incl. empty elements); histories of 4-12 operations from "
-                "{ParseBundle, ParseBundleWithFilter(KeepAll), AddTokens, Select/Filter with 8 predicates, Verify with a KeyResolver, Validate (3 requests), Header, Len, Count (predicate and non-predicate filters), Attenuate (3 caveat lists incl. a duplicate), Discharge for either third party with the right or a wrong key, Clone, UndischargedThirdPartyTickets}; "
+                "{ParseBundle, ParseBundleWithFilter(KeepAll), AddTokens, Select/Filter with 8 predicates, Verify with a KeyResolver, Validate (3 requests), Header, Len, Count (predicate and non-predicate filters), Attenuate (3 caveat lists incl. a duplicate), Discharge for either third party with the right or a wrong key, Clone, UndischargedThirdPartyTickets, Select/Filter/Count/Any with the non-predicate filters IsMissingDischarge, AllowsAccess (flyio.IsForOrg), WithDischarges (nested), IsEmpty, Error, VerificationCache.Purge}, plus scripted openings (all-or-nothing Discharge, failing Attenuate, one token for several accesses, the bundle of an empty header and its clone); "
                 "the model's verification / clearing / attenuation tables are filled by DIRECT calls (macaroon.Decode+Verify with all discharges of the bundle, CaveatSet.Validate, Decode+Add+String) outside the bundle; implementation-side oracle: after Verify the bundle clears a request iff one of the returned verified sets clears it, and Header() = 'FlyV1 ' + tokens joined in order; "
                 "non-trivial = at least one direct verification was recorded",
         "assumptions": ["derived bundles (Select) share token objects with their parent by design; scenarios only read derived bundles (object sharing is not modelled)",
